@@ -117,7 +117,7 @@ theorem tl2_val (hR : consistent d₁ d₂ R = true) : (v : Val) → ∀ i j opt
     obtain ⟨a, b, h1, h2, hm⟩ := pair_nodes hR h
     simp only [writeTL2, h1, h2]
     cases a <;> cases b <;> simp [nodesMatch] at hm ⊢
-    obtain ⟨⟨_, h6⟩, h7⟩ := hm
+    obtain ⟨h6, h7⟩ := hm
     subst h6
     split
     · rfl
@@ -255,7 +255,7 @@ theorem json_val (hR : consistent d₁ d₂ R = true) : (v : Val) → ∀ i j, R
     obtain ⟨a, b, h1, h2, hm⟩ := pair_nodes hR h
     simp only [writeJson, h1, h2]
     cases a <;> cases b <;> simp [nodesMatch] at hm ⊢
-    obtain ⟨⟨_, h6⟩, h7⟩ := hm
+    obtain ⟨h6, h7⟩ := hm
     subst h6
     split
     · rfl
